@@ -78,6 +78,15 @@ func c07Specs(tier string, seed int) []c07Spec {
 			}
 		}
 	}
+	// A3: bare soil over a shallow groundwater table (1-5 dm): water-filled layers inside the mineralisation zone below
+	// aerated ones, warm and cold soil, with organic fertiliser in the topsoil
+	for _, so := range []string{"loam12", "sand20", "clay20"} {
+		for gw := 1; gw <= 5; gw++ {
+			for _, start := range []string{"2001-07-01", "2001-03-01"} {
+				out = append(out, c07Spec{Base: e1Base{Soil: so, GW: gw, InitW: 0.8, InitN: 30, ET: 3, Start: start}, Fert: []string{"RG", "SM", "KAS"}[gw%3], Alpha: c07Alpha[:4], D: 2})
+			}
+		}
+	}
 	// B: growing crops incl. legumes on many-sub-step days
 	for _, so := range []string{"loam12", "sand20", "stony9", "three"} {
 		for _, crop := range []string{"SOY", "LUP", "SW", "SM"} {
